@@ -52,9 +52,9 @@ class Ctx:
 
     def sh(self, *args, stdin=None, env=None, timeout=CALL_TIMEOUT, text=True, cwd=None):
         self.calls += 1
-        e = None
+        e = dict(os.environ)
+        e['RUST_BACKTRACE'] = '0'
         if env:
-            e = dict(os.environ)
             e.update(env)
         try:
             return subprocess.run([str(a) for a in args], capture_output=True, text=text, input=stdin,
